@@ -566,3 +566,55 @@ def fault_scenario(rng, size='quick', **over):
         lines += [f'r {k}', f'ram {k}']
     lines += ['counts']
     return lines
+
+
+def crash_scenario(rng, size='quick', **over):
+    """C06 (power-loss model): a history under a dirty-byte limit; at random points every crash state that respects
+    the sync points is opened in a copy (crashsweep)"""
+    limit = rng.choice([0, 100, 4096, 33554432, 33554432])
+    c, line = cfg_line(rng, dup=1, dirty=limit, ignore=rng.choice([0, 0, 1]), **over)
+    klen = c['key']
+    keys = mk_keys(rng, klen, 3)
+    lines = [line, 'states']
+    seed = 1
+    n = rng.randint(4, 10) if size == 'quick' else rng.randint(8, 30)
+    for i in range(n):
+        x = rng.random()
+        if x < 0.6:
+            lines.append(f'w {rng.choice(keys)} {rng.choice(TS_POOL)} {rng.choice(METAS_W)} {rng.choice([0, 10, 300, 5000, 90000])} {seed % 250 + 1}')
+            seed += 1
+        elif x < 0.7:
+            lines.append(f'd {rng.choice(keys)} {rng.choice(TS_POOL)} - {rng.choice([0, 1])}')
+        elif x < 0.9:
+            lines.append(rng.choice(['close_active', 'force always', 'settle', 'create_active', 'restore_active']))
+        else:
+            lines.append(rng.choice(['restart', 'restart lazy']))
+        lines.append('states')
+        if rng.random() < 0.25 or i == n - 1:
+            lines.append(f'crashsweep {16 if size == "quick" else 80} {rng.randrange(1, 10**6)}')
+    return lines
+
+
+def kill_script(rng, size='quick'):
+    """C06 (process-kill model): every write uses its own key, so that 'acknowledged => served' needs no history"""
+    limit = rng.choice([0, 4096, 33554432])
+    c, line = cfg_line(rng, dup=1, dirty=limit, maxdata=rng.choice([1000000, 5, 9]), rt=rng.choice(['mt', 'ct']))
+    klen = c['key']
+    lines = [line]
+    n = rng.randint(20, 60) if size == 'quick' else rng.randint(40, 200)
+    used = set()
+    for i in range(n):
+        x = rng.random()
+        if x < 0.85:
+            while True:
+                k = bytes(rng.randrange(256) for _ in range(klen)).hex()
+                if k not in used and k != 'fe' * klen:
+                    used.add(k)
+                    break
+            ln = rng.choice([0, 10, 300, 5000, 5000, 90000, 90000])
+            lines.append(f'w {k} {rng.choice(TS_POOL)} {rng.choice(METAS_W)} {ln} {i % 250 + 1}')
+        elif x < 0.95:
+            lines.append(rng.choice(['close_active', 'force always', 'create_active', 'close_active_bg']))
+        else:
+            lines.append('wait 20')
+    return lines
